@@ -273,8 +273,13 @@ def _spawn(task, timeout):
     base = {"kind": task[0], "clause": None, "violations": [], "error": None, "rec": None, "wall": 0.0}
     try:
         try:
+            cmd = [sys.executable, "-m", "vf.run", "--worker", path, out_path]
+            if os.environ.get("VF_COVERAGE"):  # tools/coverage.sh: line coverage of the library under the checks
+                cmd = [sys.executable, "-m", "coverage", "run", "--parallel-mode", "--branch",
+                       "--data-file", os.path.join(os.environ["VF_COVERAGE"], ".coverage"),
+                       "--source", "term_image", "-m", "vf.run", "--worker", path, out_path]
             p = subprocess.run(
-                [sys.executable, "-m", "vf.run", "--worker", path, out_path],
+                cmd,
                 stdin=subprocess.DEVNULL, stdout=subprocess.PIPE, stderr=subprocess.STDOUT,
                 timeout=timeout, cwd=core.HERE,
             )
